@@ -1,0 +1,29 @@
+//go:build verif
+
+package p2p
+
+import (
+	"context"
+
+	pubsub "github.com/libp2p/go-libp2p-pubsub"
+)
+
+// VerifNewMessaging returns a messaging instance without a libp2p node. Validators and handlers are
+// registered as usual and driven through VerifValidate and Handle; SendMessage must not be called.
+func VerifNewMessaging() *P2PMessaging {
+	return &P2PMessaging{
+		gossipTopicNames:  make(map[string]struct{}),
+		handlerRegistry:   make(HandlerRegistry),
+		validatorRegistry: make(ValidatorRegistry),
+	}
+}
+
+// VerifValidate runs the combined validator of the message's topic, as the pubsub router would.
+func (m *P2PMessaging) VerifValidate(ctx context.Context, msg *pubsub.Message) pubsub.ValidationResult {
+	return m.validatorRegistry.GetCombinedValidator(msg.GetTopic())(ctx, "", msg)
+}
+
+// VerifTopics lists the gossip topics the instance would subscribe to.
+func (m *P2PMessaging) VerifTopics() []string {
+	return m.topics()
+}
